@@ -274,6 +274,7 @@ func (e *Env) processFailures(s *Spec, agg *Agg, known *Known) (*Outcome, error)
 		}
 	}
 	n := 0
+	var unreproduced []string
 	for _, f := range agg.Fails {
 		if seen[f.Key()] {
 			continue
@@ -299,6 +300,21 @@ func (e *Env) processFailures(s *Spec, agg *Agg, known *Known) (*Outcome, error)
 			return nil, troublef("%v", err)
 		}
 		rr := e.RunReplay(f.Variant, s.ID, cand, 0, env, s.extra(e)...)
+		if f.Class == "race" {
+			// whether the detector still holds the earlier access in its shadow cells when the
+			// later one arrives is not a function of the schedule alone: a report may need
+			// more than one execution of the same process log
+			for try := 0; try < 2 && !match(f, rr); try++ {
+				rr = e.RunReplay(f.Variant, s.ID, cand, 0, env, s.extra(e)...)
+			}
+			if !match(f, rr) {
+				unreproduced = append(unreproduced, fmt.Sprintf("%s (unit %d)", f.Key(), f.Run))
+				keep := filepath.Join(e.Root, "replays", fmt.Sprintf("%s-nonreproducing-%d.json", s.ID, f.Run))
+				mkdir(keep)
+				writeJSON(keep, doc)
+				continue
+			}
+		}
 		if !match(f, rr) {
 			var got []string
 			for _, g := range rr.Fails {
@@ -329,6 +345,13 @@ func (e *Env) processFailures(s *Spec, agg *Agg, known *Known) (*Outcome, error)
 		if out.Violations >= 3 {
 			break
 		}
+	}
+	if len(unreproduced) > 0 {
+		if out.Violations == 0 {
+			// a detector report that three fresh processes could not repeat is neither believed nor dropped
+			return nil, troublef("race reports that did not reproduce in fresh processes: %v (cases kept under %s)", unreproduced, filepath.Join(e.Root, "replays"))
+		}
+		out.Lines = append(out.Lines, fmt.Sprintf("  note: further race reports did not reproduce in fresh processes: %v", unreproduced))
 	}
 	return out, nil
 }
